@@ -140,6 +140,11 @@ func init() {
 		theEngine.mapOrderMax = n
 		return nil
 	})
+	ext("TempFile", func(fr *frame, a []value) value {
+		name := "/virtual/" + a[0].(string)
+		virtualFiles[name] = a[1].(string)
+		return name
+	})
 	ext("Symbolic", func(fr *frame, a []value) value { return true })
 	ext("IsConcrete", func(fr *frame, a []value) value { return !isSym(a[0]) })
 	// TryCall(f) runs f and reports whether it panicked (Go panic escaping the code under test).
@@ -261,4 +266,24 @@ func powTerm(a, e value) *Term {
 		}
 	}
 	return r
+}
+
+// virtualFiles: harness-provided file contents served by the os.Open intrinsic.
+var virtualFiles = map[string]string{}
+
+func init() {
+	externals["os.Open"] = func(fr *frame, a []value) value {
+		name := a[0].(string)
+		content, ok := virtualFiles[name]
+		if !ok {
+			return tuple{(*value)(nil), iface{fr.i.runtimeErrorString, "open " + name + ": no such file or directory"}}
+		}
+		var c value = &nativeObj{strings.NewReader(content)}
+		return tuple{&c, iface{}}
+	}
+	// formatting to stderr/stdout writers is not the subject of any property: no-ops
+	noop := func(fr *frame, a []value) value { return tuple{0, iface{}} }
+	externals["fmt.Fprint"] = noop
+	externals["fmt.Fprintf"] = noop
+	externals["fmt.Fprintln"] = noop
 }
